@@ -1,6 +1,6 @@
 """C07 -- recursion is rejected exactly when the declaration graph has a cycle.
-Proof: Properties/C07.v (sort fails iff cycle; P0010 iff the built graph is cyclic; exactness for container-only and
-alias-only declaration sets; the mixed-orientation gap as a refuted statement with witness).
+Proof: Properties/C07.v (sort fails iff cycle; P0010 iff the built graph is cyclic; the built graph is the dependency
+relation turned round, so P0010 iff some declaration depends on itself -- aliases, structures, units in any mixture).
 Tie: edge table regenerated from xform_toposort_declarations.rs; model verdict vs `P0010 present` on realised graphs.
 Search: all digraphs on <= 3 nodes and sampled / all 4-node digraphs, realised as function-block graphs, structure graphs,
 alias graphs and mixed graphs; random graphs up to 12 nodes; deep and wide acyclic families."""
@@ -12,12 +12,12 @@ from vlib import hexs
 NEED_BIN = False
 MANIFEST_ENTRY = {
     "technique": "Coq proof (pigeonhole over walks, Kahn order) that the sort fails exactly on cyclic graphs and that P0010 is "
-                 "reported iff the dependency relation is cyclic for container-only and alias-only declaration sets; edge "
+                 "reported iff the dependency relation is cyclic, for every set of declarations; edge "
                  "orientation table regenerated from the source; exhaustive small-digraph correspondence",
     "text": "Theorems for every declaration list (no bound on nodes or edges): the sort returns no order iff the graph has a cycle; "
-            "recursion is reported iff the graph built by the visitor is cyclic; for function blocks / programs / structures only, "
-            "and for aliases only, that is iff some declaration transitively depends on itself. The unrestricted statement is "
-            "refuted with a witness (a cycle through an alias edge and a containment edge is not seen: known finding). The model "
+            "recursion is reported iff the graph built by the visitor is cyclic; every edge of that graph runs from what is depended "
+            "on to what depends on it (aliases, structure elements, instances alike, since the repair of the orientation), so that "
+            "is iff some declaration transitively depends on itself. The model "
             "graph construction is tied to the visitor by the regenerated (visitor, from, to) edge table and by comparing the "
             "model's verdict with `P0010 in diagnostics` for every realised digraph.",
     "note": "Trusted: Coq kernel, translator (add_edge calls per visitor, shape of add_node / sorted_ids), extraction + driver, "
@@ -25,7 +25,7 @@ MANIFEST_ENTRY = {
             "validated by correspondence. No axioms.",
 }
 TRUSTED = [
-    "Coq 8.16.1 kernel; vm_compute only in the Example and the refutation witness",
+    "Coq 8.16.1 kernel; vm_compute only in the Examples",
     "no axioms: every theorem of Properties/C07.v is closed under the global context",
     "tools/translate.py: add_edge calls per visitor function, key type of id_to_index, shape of add_node and sorted_ids",
     "petgraph::algo::toposort assumed to return Err exactly for cyclic graphs (self-loops included); validated by correspondence",
